@@ -179,7 +179,7 @@ class Run(object):
             if role:
                 # an argument changed; if it shares buffers with another *argument* that is the in-place
                 # target the case was handled above, so this is a direct mutation by the call itself
-                self._viol("direct-mutation(%s,%s)" % (opname, role[0]), "O1", bad)
+                self._viol("direct-mutation(%s,%s)" % (opname, "+".join(sorted(role))), "O1", bad)
             # a bystander changed: find an aliasing path to any argument
             for r, j in roles.items():
                 if frozenset((i, j)) in pre_edges:
@@ -200,6 +200,7 @@ class Run(object):
         spec = OPS.get(name)
         if spec is None:
             return "skip"
+        api = api_name(rec)
         roles = dict(rec.get("in", {}))
         for r, i in roles.items():
             if isinstance(i, list):
@@ -262,9 +263,9 @@ class Run(object):
         for t in results:
             p = M.structural_problem(t)
             if p is not None:
-                self._viol("inconsistent-result(%s)" % name, "O3", {"problem": p})
+                self._viol("inconsistent-result(%s)" % api, "O3", {"problem": p})
         # O1 on everybody but the documented in-place target
-        self._check_O1(name, flat_roles, target, pre_edges)
+        self._check_O1(api, flat_roles, target, pre_edges)
         if exc is not None:
             self.raised += 1
             if fired:
@@ -278,7 +279,7 @@ class Run(object):
             tt = self.slots[target].tt
             p = M.structural_problem(tt)
             if p is not None:
-                self._viol("inconsistent-target(%s)" % name, "O2", {"problem": p})
+                self._viol("inconsistent-target(%s)" % api, "O2", {"problem": p})
             if spec.get("consumes"):
                 self._drop(target)
             else:
@@ -287,7 +288,7 @@ class Run(object):
                     self._drop(target)
                 else:
                     self.slots[target].snap = snap
-                    self._refresh_edges(target, name + "[in-place]")
+                    self._refresh_edges(target, api + "[in-place]")
                     self.log.add("target", target, snap.meta, arr_digest(snap.dense))
         # store new results (identity rule)
         dests = list(rec.get("dest", ()))
@@ -298,7 +299,7 @@ class Run(object):
             if not dests:
                 self.probes["result_not_stored_no_dest"] += 1
                 continue
-            self._store(dests.pop(0), t, name)
+            self._store(dests.pop(0), t, api)
         self.state_keys.add(self._abstract_state(name))
         for k, v in self.edges.items():
             self.edge_shapes.add(v)
@@ -316,6 +317,41 @@ class Run(object):
 
 class Skip(Exception):
     pass
+
+
+def api_name(rec):
+    """Name of the API entry point a record exercises (signatures name the API, not the harness op)."""
+    name = rec["op"]
+    a = rec.get("args", {}) or {}
+    w = a.get("which")
+    if name == "ode_onestep" or name == "ode_tdvp":
+        return "ode." + str(w)
+    if name == "ode_splitting":
+        return "ode.%s_splitting" % w
+    if name == "ode_tjm":
+        return "ode.tjm" if w == "tjm" else "ode.tjm_jump_process_tdvp"
+    if name == "ode_errors":
+        return "ode.errors_" + str(w)
+    if name == "sle":
+        return "sle." + str(w)
+    if name == "evp_als":
+        return "evp.als"
+    if name == "evp_power":
+        return "evp.power_method"
+    if name == "tdmd":
+        return "tdmd.tdmd_" + str(w)
+    if name == "ctor":
+        return "tt." + str(a.get("kind"))
+    if name == "read":
+        return "TT." + str(a.get("what"))
+    if name == "concatenate_list":
+        return "TT.concatenate"
+    if name in ("add", "mul", "matmul"):
+        return {"add": "TT.__sub__" if a.get("sub") else "TT.__add__", "mul": "TT.__rmul__" if a.get("right") else "TT.__mul__",
+                "matmul": "TT.dot" if a.get("dot") else "TT.__matmul__"}[name]
+    if name in OPS and OPS[name]["group"] in ("algebra", "inplace"):
+        return "TT." + name
+    return name
 
 
 # ====================================================================== operations
